@@ -232,7 +232,10 @@ func init() {
 		return "\t\tviolations := " + mk + "\n" + pre + "\t\tviolations[0].Error = fmt.Sprintf(\"%s not registered on the api server.\", gvk)\n"
 	}
 	addMutants(
-		Mutant{Prop: "C19", Name: "r2-benign-make-len1-then-index", File: apis, Benign: true,
+		// OwnOnly: C11.R3 (passes-only-by-delegation) does not yet read a violation list that is filled
+		// after make() as a rejection — the same false alarm it raises on corpus patch G10-2, which is
+		// being corrected in the C11 rules; drop OwnOnly once that is merged.
+		Mutant{Prop: "C19", Name: "r2-benign-make-len1-then-index", File: apis, Benign: true, OwnOnly: true,
 			Old: lit, New: made("make([]Violation, 1)", "")},
 		Mutant{Prop: "C19", Name: "r2-make-len0-then-index", File: apis,
 			Why: "make([]Violation, 0, 1) has no element 0: the preflight check panics for every unregistered API",
